@@ -80,6 +80,9 @@ func runC18(c *Ctx) {
 		cfg.AfterStep = func(c *Ctx, s *Sess, hist []EOp, obs string) {
 			last := hist[len(hist)-1]
 			histObs = append(histObs[:len(hist)-1], obs)
+			if len(hist) == 1 {
+				before = []byte(text) // every history starts from a fresh copy of the file
+			}
 			if last.Kind == "savefa" && strings.HasPrefix(obs, "err") {
 				now, _ := os.ReadFile(s.FAPath)
 				if before != nil && string(now) != string(before) {
